@@ -60,3 +60,61 @@ Theorem C01_lww_memtables_l0_reopen : forall m ops,
   forall k v, get (run (init m) ops) k v = latest_at (writes ops) k v.
 Proof. exact lww_reopen. Qed.
 Print Assumptions C01_lww_memtables_l0_reopen.
+
+(** The plain API itself: every write carries the same positive sentinel
+    version [c] and acknowledgement indices increase ([plain_api c ops]). *)
+Theorem C01_lww_plain_api : forall m c ops,
+  forallb mlfr_op ops = true -> plain_api c ops = true ->
+  forall k v, get (run (init m) ops) k v = latest_at (writes ops) k v.
+Proof. exact lww_plain_api. Qed.
+Print Assumptions C01_lww_plain_api.
+
+(** Compaction keeps the contents (Proofs/LsmCompact.v, Proofs/LsmChecked.v):
+    from a state that passes the boolean ordering checker [tier_inv_b]
+    (sound for [src_inv] and [tier_inv], Spec/LsmInvB.v) and with an admissible
+    plan [plan_okb] (the level exists, the upper tables of an ingest compaction
+    come from one shard, the cut counts cover the merged stream, new ids are
+    fresh, ...), every kind of compaction leaves each acknowledged write
+    represented by a record of its internal key that is at least as recent. *)
+From NoKV Require Import Spec.LsmInvB Proofs.LsmCompact Proofs.LsmChecked.
+
+Theorem C01_checker_sound : forall s,
+  tier_inv_b s = true -> src_inv s /\ tier_inv (tiers_of s).
+Proof. exact tier_inv_b_sound. Qed.
+Print Assumptions C01_checker_sound.
+
+Theorem C01_checker_decides : forall s,
+  tier_inv_b s = true <-> src_inv s /\ tier_inv (tiers_of s).
+Proof. exact tier_inv_b_decides. Qed.
+Print Assumptions C01_checker_decides.
+
+Theorem C01_compaction_keeps_contents : forall s ws k lvl top bot added,
+  tier_inv_b s = true -> plan_okb s k lvl top bot added = true ->
+  content_ok s ws -> content_ok (compact s k lvl top bot added) ws.
+Proof. exact plan_ok_content. Qed.
+Print Assumptions C01_compaction_keeps_contents.
+
+Theorem C01_compaction_keeps_records : forall s k lvl top bot added,
+  tier_inv_b s = true -> plan_okb s k lvl top bot added = true ->
+  let s' := compact s k lvl top bot added in
+  (forall x, In x (all_recs (tiers_of s')) -> In x (all_recs (tiers_of s))) /\
+  (forall y, In y (all_recs (tiers_of s)) ->
+     exists x, In x (all_recs (tiers_of s')) /\ r_key x = r_key y /\ r_ver x = r_ver y /\
+               (r_seq y <= r_seq x)%N).
+Proof. exact plan_ok_records. Qed.
+Print Assumptions C01_compaction_keeps_records.
+
+(** Whole histories with every kind of step: admissible writes, and
+    compactions that start from checked states with admissible plans, never
+    lose or invent a write; if the final state passes the ordering checker,
+    every read returns the latest acknowledged write. *)
+Theorem C01_checked_run_contents : forall m ops,
+  run_checked (init m) nil ops = true -> content_ok (run (init m) ops) (writes ops).
+Proof. exact checked_run_contents. Qed.
+Print Assumptions C01_checked_run_contents.
+
+Theorem C01_checked_run_reads : forall m ops,
+  run_checked (init m) nil ops = true -> tier_inv_b (run (init m) ops) = true ->
+  forall k v, get (run (init m) ops) k v = latest_at (writes ops) k v.
+Proof. exact checked_run_reads. Qed.
+Print Assumptions C01_checked_run_reads.
